@@ -128,6 +128,10 @@ class NetCDFWrite(IOWrite):
 
         g = self.write_vars
 
+        # Replace blanks before testing for uniqueness, so that the
+        # name returned is the name that was tested
+        base = base.replace(" ", "_")
+
         ncvar_names = g["ncvar_names"]
         ncdim_names = g["ncdim_to_size"]
 
@@ -153,8 +157,6 @@ class NetCDFWrite(IOWrite):
                 ncvar = f"{base}_{counter}"
         else:
             ncvar = base
-
-        ncvar = ncvar.replace(" ", "_")
 
         ncvar_names.add(ncvar)
 
